@@ -20,6 +20,33 @@ ASSUMPTIONS = ["reference evaluation in mon/ref/mdp.py (numpy solve + own Tarjan
                "action values at absorbing states are not judged (the statement fixes only their state value 0)"]
 
 
+def _corridor(rng):
+    """a long single-row corridor (6-40 cells) walked to the right at gamma = 1; its far end is either an absorbing
+    goal or a closed loop that pays a cost (then every cell is worth -inf, however far away it is)"""
+    n = rng.choice([6, 7, 9, 10, 12, 15, 20, 33, 40])
+    sp = G.Spec()
+    sp.family = "corridor"
+    sp.gamma = 1.0
+    sp.states = list(range(n))
+    end_loop = rng.random() < 0.6
+    for i in range(n):
+        sp.acts[i] = ("right", "stay")
+        nxt = min(i + 1, n - 1)
+        sp.P[(i, "right")] = [(nxt, 1.0)] if rng.random() < 0.7 or i == n - 1 else [(nxt, 0.5), (i, 0.5)]
+        sp.kind[(i, "right")] = "dict"
+        for t_, _ in sp.P[(i, "right")]:
+            sp.R[(i, "right", t_)] = -1.0
+        sp.P[(i, "stay")] = [(i, 1.0)]
+        sp.kind[(i, "stay")] = "dict"
+        sp.R[(i, "stay", i)] = 0.0
+    if not end_loop:
+        sp.flag = {n - 1}
+    sp.init = [(rng.choice([0, 0, 1, n // 2]), 1.0)]
+    sp.meta.update(abs_kinds=["zero"] if sp.flag else [], label_kind="int", abs_type="bool", num_type="float",
+                   actions_type="tuple", fresh_labels=False, corridor=n)
+    return sp
+
+
 def run_case(case, rng):
     from msdm.core.mdp import TabularPolicy, FunctionalPolicy
     from msdm.core.distributions import DictDistribution
@@ -35,11 +62,17 @@ def run_case(case, rng):
         sp = G.random_spec(rng, "proper", n_max=n_max, gamma=g)
     else:
         sp = G.random_spec(rng, fam, n_max=n_max)
+    corridor = rng.random() < 0.08
+    if corridor:
+        fam = "corridor"
+        sp = _corridor(rng)
     rep = rng.choice(Bd.REPRS)
     if not rep.endswith("explicit"):
         G.restrict_to_closure(sp, rng)
     mdp = Bd.build(sp, rep, shuffle_rng=rng)
     pol = G.random_policy(rng, sp, prefer_zero_reward=(sp.gamma == 1.0 and rng.random() < 0.7))
+    if corridor:
+        pol = {s_: {sp.acts[s_][0]: 1.0} for s_ in sp.states}
     pres = rng.choice(["same", "permuted", "to_tabular"])
     case.family = fam
     case.params = dict(rep=rep, gamma=sp.gamma, n=len(sp.states), presentation=pres)
